@@ -22,7 +22,10 @@ CLAIM = dict(
           "strings (defined and arbitrary 16-bit values, real forward output) x dotsIO/partialTrans/noUndefined x "
           "capacities x histories; lou_charToDots/lou_dotsToChar and lou_hyphenate (text and braille mode) with "
           "exact-size arrays."),
-    note=("Engines (back_selectRule, putchars, undefinedDots, multind, swap, pass interpreters) and hyphenateWord are "
+    note=("Layer B: the backward main-pass models (B0: BackOK.translate_contract; with context rules: BackCOK.translateC_contract) and the backward "
+          "stage model satisfy the clauses the driver theorem needs for every table (engineForBack_ok), and the whole backward call computed by the "
+          "model alone (MCALL) is compared with the implementation on composite generated tables under exact-size buffers. Outside the models the "
+          "engines (back_selectRule, putchars, undefinedDots, multind, swap, pass interpreters) and hyphenateWord are "
           "sanitizer-observed here; hyphenateWord's bounds are proved in C17. Index expressions of LouModel/Access.lean "
           "are transcribed by hand."),
     technique="Lean 4 proof (allocator + backward driver access obligations) + H5/H4 correspondence + sanitizer search",
